@@ -55,6 +55,15 @@ pub fn is_overflow_panic(m: &str) -> bool {
   m.contains("with overflow")
 }
 
+/// Class of an op for judging: a clone-then-observe op is judged as the
+/// observer it runs on the clone.
+fn judge_class(k: &OpKind) -> &'static str {
+  match k {
+    OpKind::CloneThen { then } => judge_class(then),
+    other => other.class(),
+  }
+}
+
 pub fn is_positional_op(k: &OpKind) -> bool {
   match k {
     OpKind::Map { .. } | OpKind::Stream { .. } => true,
@@ -435,8 +444,12 @@ pub fn check_strict(
   // recorded finding (DESIGN.md 7), not decided here.
   let replace_over_cache: Vec<bool> = scn.objects.iter().map(composite_over_cache).collect();
   let any_replace_over_cache = replace_over_cache.iter().any(|b| *b);
+  // (Requiring a cached positional answer over an inconsistent wrapped tree to
+  // equal *one of* the tree's own answers was tried and withdrawn: with
+  // untrue positions the derived maps differ in encoding-order details — 58
+  // spurious reports in 400 k runs.)
   let mut mismatch = |violations: &mut Vec<Violation>, counters: &mut Counters, class: &str, attribution_only: bool, detail: String| {
-    if attribution_only && any_replace_over_cache && (class == "map" || class == "stream" || class == "clone") {
+    if attribution_only && any_replace_over_cache && (class == "map" || class == "stream") {
       counters.inc("composite_over_cache_positions");
       violations.push(Violation {
         kind: "composite_over_cache_positions".into(),
@@ -446,11 +459,21 @@ pub fn check_strict(
       return;
     }
     let kind = match (mode, &inherited, attribution_only) {
-      (StrictMode::C10, Some(_), _) => {
+      (StrictMode::C10, Some(_), true) => {
         counters.inc("mismatch_over_inconsistent_wrapped_tree");
         "inherited_inconsistency"
       }
-      (StrictMode::C10, None, _) => "not_transparent",
+      // The replay path cuts the text at the cached map's positions; when the
+      // wrapped tree's own positions are untrue the replayed chunk *text* is
+      // garbled too (duplicated / dropped pieces). Only a stream's text can be
+      // affected that way; source(), buffer(), size(), to_writer(), hash are
+      // never excused.
+      (StrictMode::C10, Some(_), false) if class == "stream" => {
+        counters.inc("mismatch_over_inconsistent_wrapped_tree");
+        counters.inc("replayed_text_garbled_over_inconsistent_wrapped_tree");
+        "inherited_inconsistency"
+      }
+      (StrictMode::C10, _, _) => "not_transparent",
       (StrictMode::C14, _, _) => "history_dependent_answer",
     };
     let detail = match (&inherited, kind) {
@@ -484,7 +507,7 @@ pub fn check_strict(
             mismatch(
               &mut violations,
               &mut counters,
-              op.kind.class(),
+              judge_class(&op.kind),
               true,
               format!("{} overflows its position arithmetic (a wrong position in a build without overflow checks) although the same call on a cold value returns: {}", who, m),
             );
@@ -529,7 +552,7 @@ pub fn check_strict(
         mismatch(
           &mut violations,
           &mut counters,
-          op.kind.class(),
+          judge_class(&op.kind),
           false,
           format!("{} answered {} but the same call on a cold value answers {}", who, a.brief(), e.brief()),
         );
@@ -543,7 +566,7 @@ pub fn check_strict(
           mismatch(
             &mut violations,
             &mut counters,
-            op.kind.class(),
+            judge_class(&op.kind),
             true,
             format!("{} reports positions (end / attribution) differently from the same call on a cold value: got {} expected {}", who, a.brief(), e.brief()),
           );
